@@ -24,7 +24,8 @@ SPEC = dict(
                 "correspondence only. "
                 "Translation: the match-arm tables of WithBot/WithTop (merge, partial_cmp, eq; lattice_from/is_bot/is_top bodies), Conflict (partial_cmp, eq) and the IsTop/IsBot/Default impls of Max/Min in ord.rs (incl. the list of types impls_numeric! is instantiated with) are re-extracted from lattices/src on every run into Gen/Tables.lean as Lean functions; gen_* theorems prove them equal to the hand-written model, so a changed/added/reordered arm breaks the check even without a failing input. "
                 "PARTIAL / outside the theorems: union-find merge and the tombstone lattices are C04/C05; Max<()>/Min<()> (one-point, "
-                "translated table only) are not in the universe; Point is a separate two-line model (merge/partial_cmp panic unless equal)."),
+                "translated table only) are not in the universe; Point is a separate two-line model (merge/partial_cmp panic unless equal; point_merge_eq_only), run on all pairs over {0,1,2} with the oracle "
+                "`merge succeeds iff equal, never changes`."),
     level_note=("Trusted: Lean kernel + propext/Classical.choice/Quot.sound; hash/btree containers modelled as duplicate-free lists "
                 "(insert-if-absent / overwrite), printing canonicalised by sorting; element types are u32 keys/items (Hash/Eq coherence "
                 "of element types not modelled); well-formedness (duplicate-free VecSet/ArraySet/VecMap/ArrayMap inputs) is the "
